@@ -161,6 +161,9 @@ def _macro_build_run(m, gen_path, target, toolchain=None, miri=False, asan=False
     rc, out, dt = m.run([binary], cwd=m.VERIF, env=renv, timeout=timeout)
     if "AddressSanitizer" in out or "LeakSanitizer" in out:
         return "sanitizer", out
+    if rc < 0 or rc in (134, 139):
+        # the generated program died from a signal (double free / invalid free detected by the allocator, segfault)
+        return "crash", out + "\n[process killed by signal %d]" % (-rc if rc < 0 else rc - 128)
     if "FINDING " in out:
         return "finding", out
     if rc != 0:
@@ -241,7 +244,8 @@ def check_c15(m, tier, seed):
             f.write("\ngenerated program: %s (regenerate with the same seed)\n" % path)
         m.say("  [%s] %s" % (name, {"finding": "a generated literal built the wrong tree / evaluated expressions wrongly",
                                     "compile-error": "a well-formed generated literal was rejected by the compiler",
-                                    "sanitizer": "a memory checker reported an error in the expansion"}[kind]))
+                                    "sanitizer": "a memory checker reported an error in the expansion",
+                                    "crash": "executing the generated literals killed the process (double free / invalid memory access in the expansion)"}[kind]))
         first = [l for l in out.splitlines() if l.startswith("FINDING ") or l.startswith("error")][:2]
         for l in first:
             m.say("    " + l[:300])
